@@ -250,7 +250,7 @@ PROPS = {
              "or a replacement marker, or a decimal property); distinct = distinct serialised segment lists.",
         assumptions=["whitespace = unicode.IsSpace, as strings.TrimSpace uses", "attribute order and SourcePosition are not compared (C14 compares SourcePosition)"],
         subs=[
-            rapid("parse", "TestC13Parse", 20000, 200000),
+            rapid("parse", "TestC13Parse", 15000, 150000),
             enum("enumerated", "TestC13Enumerated"),
         ],
     ),
